@@ -61,7 +61,9 @@ CLAIMS = {
              "current state and invalidated by reset/step, a read before an operation never changes a read after it, "
              "RuntimeError before the first reset with nothing computed, outer env = representation.convert of the inner "
              "state/observation. The classes have three modes (unusable, state only, state + memoised observation), all reached "
-             "by the histories checked; the trajectory-equality claim follows by induction over longer histories (stated, not mechanised).",
+             "by the histories checked; the trajectory-equality claim follows by induction over longer histories (stated, not mechanised). "
+             "Bounded (labelled): every history of 5 (thorough 6) public calls on the stateful layers of two hand-built stochastic "
+             "environments against a reference threaded through the functional interface; trajectories of the shipped configurations.",
         design='5/C04'),
     'C05': dict(
         text="Proof: cell-exact postcondition of from_visibility for an arbitrary (uninterpreted) visibility function, any view "
